@@ -62,6 +62,46 @@ def _unknown_violations(ctx):
     return [v for v in ctx.violations if lib.match_known(ctx.prop, v, known) is None]
 
 
+def replay(prop, data):
+    """Re-execute a replay file: its protocol lines on the real code and on the model, side by
+    side, then the structural oracle.  Returns an exit code, or None when the replay carries no
+    op list (the check is then simply re-run with the replay's seed)."""
+    print(json.dumps({k: v for k, v in data.items() if k != 'replay'}, indent=1)[:1500])
+    rp = data.get('replay', {})
+    lines = rp.get('lines')
+    if not lines and data.get('broken'):
+        for b in data['broken']:
+            if b.get('lines'):
+                lines = b['lines']
+                break
+    print(json.dumps({k: v for k, v in rp.items() if k != 'lines'}, indent=1, default=str)[:3000])
+    if not lines:
+        return None
+    ctx = lib.Ctx(prop, 'quick', data.get('seed', 0))
+    s = lib.Session(ctx)
+    for ln in lines:
+        if ln == 'reset':
+            continue
+        s._do(ln.split('\tS:')[0])
+    try:
+        out = lib.run_model(s.lines)
+    except Exception as e:  # noqa: BLE001
+        out = [f'(model driver failed: {e!r})'] * len(s.lines)
+    bad = 0
+    for ln, a, m in zip(s.lines, s.answers, out):
+        same = lib.filter_state(a, lib.SECTIONS_L3) == lib.filter_state(m, lib.SECTIONS_L3)
+        bad += (not same)
+        print(('  ' if same else '!!'), ln.replace('\t', ' ')[:120], '|', a[:100], '' if same else '| MODEL: ' + m[:100])
+    probs = []
+    for mid, b in s.impl.mgrs.items():
+        probs += [f'manager {mid}: {p}' for p in lib.check_invariants(b, None)]
+    for p_ in probs[:10]:
+        print('INVARIANT:', p_)
+    s.close()
+    print(f'replayed {len(lines)} lines: {bad} model/implementation differences, {len(probs)} invariant problems')
+    return 1 if (bad or probs) else None
+
+
 def run_shard(prop, fn, seed, k, n):
     """One shard of a thorough run: generators + correspondence, summary to .work/."""
     import json as _json
@@ -145,8 +185,10 @@ def main():
     if args.replay:
         with open(args.replay) as f:
             data = json.load(f)
-        print(json.dumps(data, indent=1)[:4000])
         seed = data.get('seed', seed)
+        rc = replay(args.prop, data)
+        if rc is not None:
+            return rc
     fn, rule = reg[args.prop][:2]
     shard = os.environ.get('VERIF_SHARD')
     if shard is not None:
